@@ -14,7 +14,7 @@ use dvb_gse_rust::gse_encap::{ContextFrag, EncapMetadata, EncapStatus, Encapsula
 use dvb_gse_rust::header_extension::Extension;
 use dvb_gse_rust::label::Label;
 
-pub const LABELS: [Label; 7] = [
+pub const LABELS: [Label; 8] = [
     Label::SixBytesLabel([0xA6, 1, 2, 3, 4, 5]),
     Label::SixBytesLabel([0xB6, 1, 2, 3, 4, 5]),
     Label::ThreeBytesLabel([0xC3, 1, 2]),
@@ -22,13 +22,20 @@ pub const LABELS: [Label; 7] = [
     Label::Broadcast,
     Label::ReUse,
     Label::SixBytesLabel([0, 0, 0, 0, 0, 0]),
+    // a 6-byte label with the same numeric value as the 3-byte label C3
+    Label::SixBytesLabel([0, 0, 0, 0xC3, 1, 2]),
 ];
-pub const LABEL_NAMES: [&str; 7] = ["A6", "B6", "C3", "D3", "bc", "ru", "z6"];
+pub const LABEL_NAMES: [&str; 8] = ["A6", "B6", "C3", "D3", "bc", "ru", "z6", "E6"];
 
 #[derive(Clone, Copy, Debug, PartialEq, Eq)]
 pub enum Outcome {
     Fits,
     Fragments,
+    /// first fragment into a buffer of exactly the header size for the label passed (no payload byte)
+    HeaderOnly,
+    /// first fragment that leaves only a few bytes for the end packet (buffer one byte short of the
+    /// complete packet with an empty label)
+    FragTail,
     TooSmall,
     TooLong,
     BadPtype,
@@ -70,6 +77,13 @@ pub fn alphabet_c15() -> Vec<Op> {
     }
     v.push(Op::Enc { label: 0, outcome: Outcome::Fragments, ext: false });
     v.push(Op::Enc { label: 2, outcome: Outcome::Fragments, ext: false });
+    // start packets into a buffer of exactly the header size; failures other than "buffer too small";
+    // a 6-byte label numerically equal to the 3-byte one
+    v.push(Op::Enc { label: 1, outcome: Outcome::HeaderOnly, ext: false });
+    v.push(Op::Enc { label: 4, outcome: Outcome::HeaderOnly, ext: false });
+    v.push(Op::Enc { label: 0, outcome: Outcome::TooLong, ext: false });
+    v.push(Op::Enc { label: 0, outcome: Outcome::TooLong, ext: true });
+    v.push(Op::Enc { label: 7, outcome: Outcome::Fits, ext: false });
     v.extend([Op::Reset, Op::Disable, Op::Enable, Op::EnableMax(0), Op::EnableMax(1), Op::EnableMax(2), Op::EnableMax(255)]);
     v
 }
@@ -92,8 +106,17 @@ pub fn alphabet_c04() -> Vec<Op> {
         v.push(Op::Enc { label: l, outcome: Outcome::BadPtype, ext: false });
     }
     v.push(Op::Enc { label: 6, outcome: Outcome::Fits, ext: false });
-    v.extend([Op::Cont, Op::Reset, Op::Disable, Op::Enable, Op::EnableMax(1), Op::EnableMax(2)]);
+    v.push(Op::Enc { label: 7, outcome: Outcome::Fits, ext: false });
+    v.push(Op::Enc { label: 0, outcome: Outcome::FragTail, ext: false });
+    v.push(Op::Enc { label: 2, outcome: Outcome::FragTail, ext: false });
+    v.push(Op::Enc { label: 1, outcome: Outcome::HeaderOnly, ext: false });
+    v.extend([Op::Cont, Op::Reset, Op::Disable, Op::Enable, Op::EnableMax(0), Op::EnableMax(1), Op::EnableMax(2)]);
     v
+}
+
+fn trace_on() -> bool {
+    static T: std::sync::OnceLock<bool> = std::sync::OnceLock::new();
+    *T.get_or_init(|| std::env::var("GSEMON_TRACE").is_ok())
 }
 
 thread_local! {
@@ -163,6 +186,9 @@ impl Exec {
     /// returns false when the history must be abandoned (panic / harness limitation)
     pub fn step(&mut self, op: &Op, mask: u32, hist: &dyn Fn() -> String, rep: &mut Report, replay: &dyn Fn() -> String) -> bool {
         rep.eval();
+        if trace_on() {
+            eprintln!("op {} (pending ids {:?})", op_str(op), self.pending.iter().map(|p| p.ctx.frag_id()).collect::<Vec<_>>());
+        }
         match op {
             Op::Reset => {
                 self.enc.reset_last_label();
@@ -222,6 +248,8 @@ impl Exec {
                 let (pdu, blen, ptype): (Vec<u8>, usize, u16) = match outcome {
                     Outcome::Fits => (small[..20].to_vec(), 64, 0x0800),
                     Outcome::Fragments => (small.clone(), 24, 0x0800),
+                    Outcome::HeaderOnly => (small[..20].to_vec(), 7 + label_bytes(&l).len(), 0x0800),
+                    Outcome::FragTail => (small[..20].to_vec(), 23, 0x0800),
                     Outcome::TooSmall => (small[..20].to_vec(), 3, 0x0800),
                     Outcome::TooLong => (LONG_PDU.with(|p| p.clone()), 64, 0x0800),
                     Outcome::BadPtype => (small[..20].to_vec(), 64, 0x0200),
@@ -328,6 +356,9 @@ impl Exec {
             None => return,
         };
         let res = dec_guard(dec, pkt);
+        if trace_on() {
+            eprintln!("  feed {} -> {}   (intended {:?}, final {})", crate::rng::hex(pkt), dec_res_str(&res), pdu.as_ref().map(|p| p.0.intended.map(|l| label_str(&l))), pdu.as_ref().map(|p| p.1).unwrap_or(false));
+        }
         self.rx.observe(pkt, &res, if mask & M_C04 != 0 { RX_C04 } else { 0 }, "lockstep", rep, replay);
         let (p, is_final) = pdu.unwrap();
         let kind = Kind::from_word(u16::from_be_bytes([pkt[0], pkt[1]]));
@@ -384,13 +415,15 @@ pub fn random_op(rng: &mut Rng, with_fail_kinds: bool) -> Op {
         3 => Op::EnableMax([0u8, 1, 2, 3, 5, 255][rng.below(6)]),
         4 | 5 => Op::Cont,
         _ => {
-            let label = [0u8, 0, 1, 2, 2, 3, 4, 5, 0, 2][rng.below(10)];
-            let outcome = match rng.below(if with_fail_kinds { 12 } else { 9 }) {
+            let label = [0u8, 0, 1, 2, 2, 3, 4, 5, 0, 2, 7][rng.below(11)];
+            let outcome = match rng.below(if with_fail_kinds { 14 } else { 11 }) {
                 0..=5 => Outcome::Fits,
                 6 | 7 => Outcome::Fragments,
                 8 => Outcome::TooSmall,
-                9 => Outcome::TooSmall,
-                10 => Outcome::BadPtype,
+                9 => Outcome::HeaderOnly,
+                10 => Outcome::FragTail,
+                11 => Outcome::TooSmall,
+                12 => Outcome::BadPtype,
                 _ => Outcome::TooLong,
             };
             Op::Enc { label, outcome, ext: rng.chance(1, 6) }
